@@ -19,12 +19,13 @@ var c08Specs = []famSpec{
 	{Family: "mink-general", Pool: 150000, PoolQ: 3000},
 	{Family: "mink-convex-small", Pool: 60000, PoolQ: 1500},
 	{Family: "mink-degenerate-small", Pool: 30000, PoolQ: 750},
+	{Family: "mink-big", FreshQ: 150, FreshT: 4000},
 }
 
 func init() {
 	register(&run.Prop{
 		ID: "C08",
-		Rule: "case = pattern polygon + path + closed/open flag. mink-convex: convex patterns (both orientations) x star/simple or random paths; mink-general: non-convex and self-intersecting patterns and paths; mink-degenerate: 1-/2-point and collinear paths, tiny patterns; the *-small and mink-general families (coordinates down to +-40, where unit differences abound) are closed pools, the fresh families use magnitudes 5000..2^26. " +
+		Rule: "case = pattern polygon + path + closed/open flag. mink-convex: convex patterns (both orientations) x star/simple or random paths; mink-general: non-convex and self-intersecting patterns and paths; mink-degenerate: 1-/2-point and collinear paths, tiny patterns; mink-big: 3..12-vertex patterns x star paths of 100..630 vertices (300..8000 swept quads); the *-small and mink-general families (coordinates down to +-40, where unit differences abound) are closed pools, the fresh families use magnitudes 5000..2^26. " +
 			"Oracle per sample point p: translate the pattern boundary (reflected through the origin for the sum) to p and test with exact segment predicates whether it meets the path; p is eligible only if that answer is provably constant on its 2-unit neighbourhood (minimum distance > 2.5, or a transversal crossing with all four end points > 2.5 from the other segment's line). " +
 			"Checked: inside(result,p) equals the oracle for MinkowskiSum64 and MinkowskiDiff64; result canonical (C02 structural + winding in {0,1}); for closed paths sum(A,B) and sum(B,A) agree where both are eligible. Non-trivial = >= 1 eligible point inside and >= 1 eligible point outside the result; distinct by input digest.",
 		Assumptions: []string{"exact segment intersection by 128-bit cross products; stability margins in float64"},
@@ -102,6 +103,15 @@ func minkInput(id run.CaseID) minkCase {
 			p := gen.RandPaths(r, 1, 5, R)[0]
 			mc.Path = append(p, p[0], p[1])
 		}
+	case "mink-big": // hundreds to thousands of swept quads (pattern edges x path edges from 300 to 8000)
+		R = gen.PickOf(r, int64(5000), 1<<20, 1<<26)
+		if r.Chance(0.7) {
+			mc.Pattern = convexPoly(r, float64(R)*r.FloatRange(0.02, 0.15), 3+r.Intn(10), r.Bool())
+		} else {
+			mc.Pattern = gen.RandPaths(r, 1, 6, max(R/10, 4))[0]
+		}
+		n := gen.PickOf(r, 100, 129, 171, 257, 300, 343, 513, 600) + r.Intn(30)
+		mc.Path = gen.StarPoly(r, r.Range(-R, R), r.Range(-R, R), float64(R)*0.6, float64(R), n, r.Bool())
 	default:
 		mc.Pattern = gen.RandPaths(r, 1, 7, max(R/4, 4))[0]
 		mc.Path = gen.RandPaths(r, 1, 7, R)[0]
